@@ -28,7 +28,7 @@ use crate::tape::Tape;
 use crate::world::*;
 
 pub const KF_C14_PROVISIONAL: &str = "kf:c14-plain-member-returns-provisional-value-of-head-on-other-thread";
-pub const GRACE: Duration = Duration::from_millis(2500);
+pub const GRACE: Duration = Duration::from_millis(6000);
 
 #[derive(Clone, Copy, Debug, PartialEq, Eq)]
 enum St {
